@@ -32,16 +32,19 @@ CompsOf(x) == LET l == LenOf(x)
                   v == x - Off(l)
               IN [j \in 1..l |-> Alpha[((v \div Pow(l - j)) % NAl) + 1]]
 
-NC == Len(Cwds)
-NF == NForests
+NC == 3
+NF == 8
+ASSUME NC = Len(Cwds) /\ NF = NForests /\ NF = Len(Catalogue)
 N3 == NP3 * 4 * NC * NF
 N4 == NP4 * 4 * NC * NF
 
 Kinds == << [lo |-> "cwd", hi |-> "ones"], [lo |-> "cwd", hi |-> "zero"], [lo |-> "cwd", hi |-> "junk"],
             [lo |-> "fd",  hi |-> "zero"], [lo |-> "fd",  hi |-> "junk"], [lo |-> "fd",  hi |-> "ones"],
             [lo |-> "bad", hi |-> "zero"] >>
-NK == Len(Kinds)
-ND == Len(DirPaths)
+NK == 7
+ND == 5
+NSys == 26
+ASSUME NK = Len(Kinds) /\ ND = Len(DirPaths) /\ NSys = Len(Syscalls)
 NoD == [lo |-> "none", hi |-> "zero", dirp |-> <<>>]
 PS(abs, comps, trail) == [abs |-> abs, comps |-> comps, trail |-> trail, pre |-> "", pdir |-> <<>>]
 NoP == PS(FALSE, <<>>, FALSE)
@@ -70,8 +73,8 @@ WCase(i, ra, rb) ==
       trail == (i2 % 2) = 1
       abs   == ((i2 \div 2) % 2) = 1
       ps0   == PS(abs, CompsOf(i2 \div 4), trail)
-      sc    == Syscalls[(ra % Len(Syscalls)) + 1]
-      a1    == ra \div Len(Syscalls)
+      sc    == Syscalls[(ra % NSys) + 1]
+      a1    == ra \div NSys
       d1    == DK((a1 % NK) + 1, ((a1 \div NK) % ND) + 1)
       fv    == (a1 \div (NK * ND)) % 256
       acc   == IF sc \in OpenFamily THEN fv % 4 ELSE 0
